@@ -466,6 +466,41 @@ func (fr *Frame) loopLocal(li *loopInfo, name string, st *State) *Val {
 	return fr.localByNameDom(name, li.head, st)
 }
 
+// spilledParam: the current content of the cell go/ssa spills parameter `name` into (nil when the
+// parameter is never assigned to, or the cell has not been initialised on this path yet).
+func (fr *Frame) spilledParam(name string, st *State) *Val {
+	for _, p := range fr.fn.Params {
+		if p.Name() != name {
+			continue
+		}
+		refs := p.Referrers()
+		if refs == nil {
+			return nil
+		}
+		for _, r := range *refs {
+			if stt, ok := r.(*ssa.Store); ok && stt.Val == p {
+				if a, ok := stt.Addr.(*ssa.Alloc); ok {
+					if _, done := fr.vals[a]; !done {
+						return nil
+					}
+					saved := fr.st
+					fr.st = st
+					defer func() { fr.st = saved }()
+					l := fr.locOf(a)
+					if l == nil {
+						return nil
+					}
+					if l.kind == "struct" {
+						return &Val{T: l.idx, S: SInt, Typ: l.typ, Addr: true}
+					}
+					return fr.loadLoc(l)
+				}
+			}
+		}
+	}
+	return nil
+}
+
 func (fr *Frame) localByName(name string, st *State) *Val {
 	return fr.localByNameDom(name, nil, st)
 }
